@@ -715,10 +715,12 @@ pub fn worker_main(args: &[String]) -> i32 {
         if pos % n != stripe || pos < start_from { continue; }
         let u = Unit::from_json(uv);
         let t0 = Instant::now();
+        let (pops0, repops0) = (crate::rec::POPS.load(SeqCst), crate::rec::REPOPS_BETTER.load(SeqCst));
         let st = if Instant::now() > deadline { let mut s = UStats::default(); s.capped = true; s.completed_bound = -1; s } else if u.all { explore_unit_all(&u, exec_cap, deadline, false) } else { explore_unit(&u, exec_cap, deadline) };
         leaked += st.leaked;
         let line = json!({"pos": pos, "executions": st.executions, "decision_nodes": st.decision_nodes, "steps": st.steps, "distinct_cs_traces": st.distinct_cs_traces, "distinct_outcomes": st.distinct_outcomes,
             "concurrent_execs": st.concurrent_execs, "blocked": st.blocked, "cut_fired_execs": st.cut_fired_execs, "cut_indices": st.cut_indices, "completed_bound": st.completed_bound, "capped": st.capped, "leaked": st.leaked, "states": st.states, "transitions": st.transitions, "max_depth": st.max_depth,
+            "pops": crate::rec::POPS.load(SeqCst) - pops0, "repops_better": crate::rec::REPOPS_BETTER.load(SeqCst) - repops0,
             "violations": st.violations.iter().map(|(p, s, w, r)| json!({"prop": p, "sig": s, "what": w, "replay": r})).collect::<Vec<_>>(), "machinery": st.machinery, "wall_s": t0.elapsed().as_secs_f64()});
         let mut lock = stdout.lock();
         let _ = writeln!(lock, "{}", line);
@@ -788,7 +790,7 @@ pub fn explore_units(rep: &Reporter, focus: &[&str], units: &[Unit], budget_s: f
             None => { complete = false; }
             Some(v) => {
                 done_units += 1;
-                for k in ["executions", "decision_nodes", "steps", "distinct_cs_traces", "distinct_outcomes", "concurrent_execs", "blocked", "cut_fired_execs", "cut_indices", "leaked", "states", "transitions"] { *agg.entry(k).or_insert(0) += v[k].as_u64().unwrap_or(0); }
+                for k in ["executions", "decision_nodes", "steps", "distinct_cs_traces", "distinct_outcomes", "concurrent_execs", "blocked", "cut_fired_execs", "cut_indices", "leaked", "states", "transitions", "pops", "repops_better"] { *agg.entry(k).or_insert(0) += v[k].as_u64().unwrap_or(0); }
                 if v["capped"].as_bool().unwrap_or(false) || v["completed_bound"].as_i64().unwrap_or(-1) < u.bound as i64 { complete = false; }
                 let cls = if u.all { format!("{} workers (constructed for {}), cut={:?}, ALL interleavings (explicit-state search with state matching, no pre-emption bound)", u.run, u.construct, u.cut) }
                           else { format!("{} workers (constructed for {}), cut={:?}, bound {}", u.run, u.construct, u.cut, u.bound) };
@@ -812,6 +814,7 @@ pub fn explore_units(rep: &Reporter, focus: &[&str], units: &[Unit], budget_s: f
         "executions_blocked_by_another_monitor": g("blocked"), "executions_in_which_the_cutoff_fired": g("cut_fired_execs"), "cutoff_indices_enumerated": g("cut_indices"), "abandoned_executions": g("leaked"),
         "by_class": by_class.iter().map(|(k, v)| json!({"class": k, "units": v.0, "executions": v.1, "min_completed_preemption_bound": v.2, "units_explored_completely": v.3, "distinct_states_of_the_completely_explored_units": v.4})).collect::<Vec<_>>(),
         "explicit_state_units": units.iter().filter(|u| u.all).count(), "explicit_state_distinct_states": g("states"), "explicit_state_transitions": g("transitions"),
+        "sub_problems_popped_with_a_cache (summed over executions)": g("pops"), "of_which_popped_again_with_a_better_value": g("repops_better"),
         "exhaustive_within_bounds": complete, "samples": samples, "wall_s": t0.elapsed().as_secs_f64(),
         "explanation": "stateless exploration (iterative context bounding) of the real ParallelSolver under a controlled scheduler: states = decision nodes of the schedule tree, transitions = scheduling steps, every execution is a run of the implementation",
     });
